@@ -14,7 +14,7 @@ import (
 var profC04 = Profile{
 	MaxProcs: 5, MaxItems: 4, Bufsizes: []int{0, 1, 2, 3}, MaxSlots: 6,
 	Params: true, MultiOut: true, FanIn: true, FanOut: true, NoPort: true, Custom: true,
-	Subdirs: true, Cores: true, Recorders: true, ParamSrc: true, TwoSources: true, Zip: true,
+	Subdirs: true, Cores: true, Recorders: true, ParamSrc: true, TwoSources: true, Zip: true, Sinkless: true,
 }
 
 func tierProfile(p Profile, tier string) Profile {
@@ -107,7 +107,14 @@ func init() {
 	Register(&Check{ID: "C04", Level: "exploration",
 		Rule: "one case = one generated acyclic workflow (graph shape, stream lengths, bufsize, slots, cores from the gen stream) run once under one tape-chosen schedule (strategy, preemptions, select picks, map orders, command durations). distinct = distinct event-log hash; non-trivial = at least 2 tasks executed and at least one non-default scheduling/map/select/duration choice",
 		Run: func(c *Case) Verdict {
-			w := Generate(c.Tape, tierProfile(profC04, c.Tier))
+			var w *WF
+			if c.Tape.Choose(simrt.StGen, 10, 0) == 1 {
+				// files found by a dependent FileGlobber: which ones are found must
+				// not depend on when the upstream tasks finish
+				w = globDepWF(c)
+			} else {
+				w = Generate(c.Tape, tierProfile(profC04, c.Tier))
+			}
 			c.Sample = sample(w)
 			ex := Eval(w)
 			var root *simrt.Inode
